@@ -305,6 +305,9 @@ def index_expr(I, st, fr, e, base, ix):
                 if isinstance(a, tuple) and a[0] == "elem" and ix.p == Poly.atom(a):
                     return [(st, elem_of_gather(I, st, base.t, a[1], e), None)]
             tyd = I.facts.ty(e["ty"])
+            if tyd["k"] == "bool":
+                # element of a vector of flags: an unknown boolean that is a function of the vector and the position
+                return [(st, VBool(("unk", ("flag", base.t, ix.p))), None)]
             return [(st, seq_elem(I, st, base, ix.p, label_of(base.t) or tyd["k"] == "param"), None)]
         if isinstance(ix, (VRange, VRec)):
             import prims
@@ -788,10 +791,50 @@ def h_filter(I, st, fr, e, c, a):
         cond = normal[0][1].f
     else:
         cond = ("unk", ("filter-pred", fkey_of(a[1])))
-    M = ("mask", seq.t, cond)
-    t = ("lfilter", seq.t, M)
+    M = make_mask(I, st, seq.t, cond)
+    t = ("lfilter", seq.t, M) if seq.t[0] in ("zip", "enum") else ("sel", seq.t, M)
     term_facts(st, t)
     return [(st, VSeq(t), None)]
+
+
+def h_retain(I, st, fr, e, c, a):
+    """v.retain(pred): as a loop over v that pushes the elements for which pred holds (pred may advance a counter)."""
+    place, cur = place_of(I, st, a[0])
+    if not isinstance(cur, VSeq):
+        raise NotImplementedError("retain on " + type(cur).__name__)
+    if cur.t == EMPTY:
+        return [(st, UNIT, None)]
+    f = a[1]
+    import loops
+    out_root = ("retain-out", id(e))
+    st.env[(fr.id, out_root)] = VSeq(EMPTY)
+    roots = {out_root}
+    if isinstance(f, VClosure):
+        roots |= set(loops.modified_roots(I, [f.node["body"]], f.frame))
+
+    def run_body(s, elem):
+        res = []
+        for (s2, r, ctl) in I.apply_value(f, [elem], s, fr, e):
+            if ctl is not None:
+                res.append((s2, r, ctl))
+                continue
+            fb = r.f if isinstance(r, VBool) else ("unk", ("retain", e.get("sp", "?")))
+            yes, no = I.branch(s2, fb)
+            for s3 in yes:
+                curo = s3.env[(fr.id, out_root)]
+                s3.env[(fr.id, out_root)] = VSeq(mk_concat([curo.t, ("single", freeze(elem))])) if not isinstance(elem, VNat) \
+                    else VSeq(mk_concat([curo.t, ("fill", elem.p, Poly.const(1))]))
+                res.append((s3, UNIT, None))
+            for s3 in no:
+                res.append((s3, UNIT, None))
+        return res
+    r = fold_loop(I, st, fr, e, cur, None, None, roots, run_body)
+    if r is None:
+        raise NotImplementedError("retain: predicate outside the summarised idioms")
+    s2 = r[0][0]
+    newv = s2.env.pop((fr.id, out_root))
+    I.write_place(s2, place, newv)
+    return [(s2, UNIT, None)]
 
 
 def h_unzip(I, st, fr, e, c, a):
@@ -966,6 +1009,7 @@ TABLE = {
     "std::iter::Iterator::enumerate": h_enumerate,
     "std::iter::Iterator::filter_map": h_filter_map,
     "std::iter::Iterator::filter": h_filter,
+    "std::vec::Vec::<T, A>::retain": h_retain,
     "std::iter::Iterator::unzip": h_unzip,
     "std::iter::Iterator::flat_map": h_flat_map,
     "std::iter::Iterator::for_each": h_for_each,
@@ -1291,8 +1335,11 @@ def _subst_term_atoms(x, mapping):
     return x
 
 
-def fold_loop(I, st, fr, e, seq, pat, body, roots, run_body):
+def fold_loop(I, st, fr, e, seq, pat, body, roots, run_body, ind=None):
+    """ind: loop-carried naturals found (by a first pass) to advance by a constant in every iteration (manual
+    counters): in the second pass they hold their exact value  start + c * (iteration index)."""
     import loops
+    ind = ind or {}
     entry = loops.resolve_roots(I, st, fr, roots, skip=lambda r: _is_pattern_local(pat, r), extra_values=[seq])
     if not entry:
         return None
@@ -1312,7 +1359,12 @@ def fold_loop(I, st, fr, e, seq, pat, body, roots, run_body):
                 LABEL_LEAVES.add(P)
             nv = _set_path(nv, path, VSeq(P))
         for path, natv in nat_leaves(v):
-            A = Poly.atom(("accn",) + lname + (rn,) + path)
+            if (r, path) in ind:
+                ix = Poly.atom(("enumidx", seq.t))
+                head.add_ge(t_len(seq.t) - ix - 1)
+                A = natv.p + ind[(r, path)] * ix
+            else:
+                A = Poly.atom(("accn",) + lname + (rn,) + path)
             nat_mark[(r, path)] = (A, natv.p)
             nv = _set_path(nv, path, VNat(A))
         I.write_place(head, place, nv)
@@ -1339,7 +1391,7 @@ def fold_loop(I, st, fr, e, seq, pat, body, roots, run_body):
     if not outs or any(c is not None for (_, _, c) in outs):
         return abort()
     all_marks = {P for (P, _) in seq_mark.values()}
-    nat_atoms = {next(iter(A.atoms())) for (A, _) in nat_mark.values()}
+    nat_atoms = {next(iter(A.atoms())) for (k_, (A, _)) in nat_mark.items() if k_ not in ind}
 
     def classify(s2):
         """per leaf: ('same',) | ('upd', ip, val) | ('app', [parts]) | ('inc', g)   (None = unsupported)"""
@@ -1366,7 +1418,11 @@ def fold_loop(I, st, fr, e, seq, pat, body, roots, run_body):
                 if not isinstance(ev, VNat):
                     return None
                 g = ev.p - A
-                if g == Poly.const(0):
+                if (r, path) in ind:
+                    if g != ind[(r, path)]:
+                        return None
+                    out[(r, path)] = ("same",)
+                elif g == Poly.const(0):
                     out[(r, path)] = ("same",)
                 elif not (g.atoms() & nat_atoms) and not mentions(g, all_marks):
                     out[(r, path)] = ("inc", g)
@@ -1376,11 +1432,23 @@ def fold_loop(I, st, fr, e, seq, pat, body, roots, run_body):
     cls = [classify(s2) for (s2, _, _) in outs]
     if any(c is None for c in cls):
         return abort()
+    if not ind:
+        # manual counters: the same constant increment on every path of the body
+        found = {}
+        for key in nat_mark:
+            ks = [c[key] for c in cls]
+            if all(k[0] == "inc" and k[1].is_const() and k[1] == ks[0][1] for k in ks):
+                found[key] = ks[0][1]
+        if found:
+            abort()
+            return fold_loop(I, st, fr, e, seq, pat, body, roots, run_body, ind=found)
     changing = [i for i, c in enumerate(cls) if any(k[0] != "same" for k in c.values())]
     S = seq.t
     res = st.copy()
 
     def finish(final):
+        for key, c_ in ind.items():
+            final[key] = VNat(nat_mark[key][1] + c_ * t_len(S))
         for (r, path), newv in final.items():
             place = entry[r][0]
             cur = I.read_place(res, place)
@@ -1404,7 +1472,7 @@ def fold_loop(I, st, fr, e, seq, pat, body, roots, run_body):
         for (key, truth) in cond_unk:
             f = ("unk", key)
             cond = f_and(cond, f if truth else f_not(f))
-        M = ("mask", S, cond)
+        M = make_mask(I, res, S, cond)
         Sf = ("lfilter", S, M)
         term_facts(res, Sf)
         final = {}
@@ -1430,6 +1498,8 @@ def fold_loop(I, st, fr, e, seq, pat, body, roots, run_body):
     c = cls[0]
     s2 = outs[0][0]
     kinds = {k[0] for k in c.values()}
+    if kinds <= {"same"} and ind:
+        return finish({})
     # ---- (i) indexed in-place updates
     if kinds <= {"same", "upd"} and "upd" in kinds:
         final = {}
@@ -1493,6 +1563,51 @@ def fold_loop(I, st, fr, e, seq, pat, body, roots, run_body):
             final[(r, path)] = VSeq(mk_concat([t0] + lifted))
         return finish(final)
     return abort()
+
+
+def subst_formula(f, mapping):
+    """Substitute atoms (by polynomials) inside a formula / key made of nested tuples and polynomials."""
+    if isinstance(f, Poly):
+        return f.subst(mapping)
+    if isinstance(f, tuple):
+        if f in mapping:
+            a_ = mapping[f].atoms()
+            if len(a_) == 1 and mapping[f] == Poly.atom(next(iter(a_))):
+                return next(iter(a_))
+        return tuple(subst_formula(x, mapping) for x in f)
+    return f
+
+
+def _formula_placeholders(f, out):
+    if isinstance(f, Poly):
+        for a in f.atoms():
+            _formula_placeholders(a, out)
+    elif isinstance(f, tuple):
+        if _is_ph(f):
+            out.add(f)
+            return
+        if f and f[0] in BINDERS:
+            return
+        for x in f:
+            _formula_placeholders(x, out)
+
+
+def make_mask(I, st, S, cond):
+    """mask(S, cond).  A condition that depends on the POSITION only (not on the elements) selects the same positions
+    of every list of the same length: such masks are shared (one representative per condition and length)."""
+    phs = set()
+    _formula_placeholders(cond, phs)
+    if phs and all(p[0] == "enumidx" for p in phs) and all(st.eq(t_len(p[1]), t_len(S)) for p in phs):
+        pos = ("enumidx", ("positions",))
+        canon = subst_formula(cond, {p: Poly.atom(pos) for p in phs})
+        reg = templates(I).setdefault(("posmasks",), [])
+        for (n2, c2, M2) in reg:
+            if c2 == canon and st.eq(n2, t_len(S)):
+                return M2
+        M = ("mask", S, cond)
+        reg.append((t_len(S), canon, M))
+        return M
+    return ("mask", S, cond)
 
 
 def _lift_selected(I, st, S, M, x):
